@@ -397,8 +397,14 @@ def walk_path(f, path, env=None):
                     new[d.name] = t
                     events.append(Event('aug', nd, d.name, t, val))
                 elif d.kind == 'mutate' and isinstance(d.extra, (ast.Subscript, ast.Attribute)):
-                    events.append(Event('store', nd, d.name, tb.build(d.value) if d.value is not None else None,
-                                        tb.build(_as_load(d.extra))))
+                    v = d.value
+                    if isinstance(v, ast.BinOp) and isinstance(v.op, ast.Add) and \
+                            ast.dump(_as_load(d.extra)) == ast.dump(v.left):
+                        # t[i] = t[i] + e   is   t[i] += e
+                        events.append(Event('augstore', nd, d.name, tb.build(v.right), tb.build(_as_load(d.extra))))
+                    else:
+                        events.append(Event('store', nd, d.name, tb.build(d.value) if d.value is not None else None,
+                                            tb.build(_as_load(d.extra))))
             for c in _calls_in(st.value):
                 _call_event(events, nd, tb, c)
             env.update(new)
